@@ -73,6 +73,11 @@ CLAIMED = {
         "technique": "Lean 4 refinement of the scope chain to a stack of finite maps (induction over scopes / definition lists) + differential correspondence on operation histories and nested-macro programs",
         "design_ref": "DESIGN.md section 5, C11",
     },
+    "C01": {
+        "text": "Proof (partial): the Lean port of the lexer and of the recursive-descent reading of the grammar is total (compile_total: every character sequence yields Ok or Err, structurally / by fuel, no panic outcome exists in the model's result type and fuel exhaustion is shown unreachable for accepted inputs by accept_consumes_all), and acceptance implies the structural facts the property lists: no lexical error, all tokens consumed, brackets balanced and properly nested (accept_brackets_balanced), no dangling operator at the end (accept_no_dangling_operator), the program starts with an operand (accept_starts_with_operand), the empty program is rejected. Tie to the code: a byte/char-level generator (grammar samples mutated by deletion, duplication, transposition and splicing of tokens and of raw characters incl. control, surrogate-range-adjacent and astral code points; deep nesting; unterminated literals and comments) compiled by the real parser in-process under catch_unwind: accept/reject must agree with the model, accepted inputs must yield the model's tree, rejected ones must carry an error whose line/column lie inside the source. What the model cannot carry: the ANTLR runtime's own panics, hangs and error-recovery paths are observed (catch_unwind, time budget) rather than proved absent; error positions are checked by predicate, not modelled.",
+        "technique": "Lean 4 invariant over the 19 fuel-indexed parser functions (simultaneous induction on fuel) + differential correspondence on mutated sources with panic detection and error-position oracle",
+        "design_ref": "DESIGN.md section 5, C01",
+    },
     "C02": {
         "text": "Proof: eval_no_panic shows that evaluating any tree a compilation can produce (no Unspecified node), in any context - any variables, any registered functions including host functions of any signature - from any state never panics: it yields a value or an execution error; applyBin/applyUn/applyBuiltin_no_panic show the same for the value operators and every built-in on the parameter shapes extraction establishes. Every Rust panic site found while modelling was repaired in /repo (fix: commits) so that the model mirrors the code without exceptions. Tie to the code: well- and ill-typed generated programs to depth 8 against contexts with chrono/i64/u64 extremes, NaN/inf, function values and host functions of arity 0-9, plus all ordered pairs of a ~70-value boundary set under each operator implementation called directly; a panic of the implementation is itself the failing input.",
         "technique": "Lean 4 Hoare-style Sat calculus over the monadic evaluator, induction on Expr (4 motives), extract/loopG lemmas + differential correspondence with catch_unwind panic detection",
